@@ -5,6 +5,7 @@ import TR.Lemmas.CoalesceCaller
 import TR.Lemmas.CoalesceServices
 import TR.Lemmas.CoalesceUnwind
 import TR.Lemmas.CoalesceOnce
+import TR.Lemmas.CoalesceReady
 /-!
 # C11 — coalesce runs one inner call per key and shares its result with all waiters
 
@@ -627,6 +628,39 @@ the words after the caller's number do not reach the model. -/
 theorem unwinding_drop_is_a_drop (c : String) (rest : List String) :
     parseOp ("drop" :: c :: rest) = some (.drop (c.toNat?.getD 0)) := rfl
 
+/-! ## a readiness failure concerns the handle it happened on, and nothing else -/
+
+/-- **A handle whose readiness fails.** `arrive c … rdy=<script>` with a script that does not end in "ready" (the
+wrapped service of the handle the caller is about to call answers its `poll_ready` with an error, or stays pending):
+the caller is answered with exactly that — the readiness error `err:inner9:0` or `notready` — and the state of the
+coalescing service is, field for field, what it was: nothing is unregistered, no channel is closed, no waiter is
+answered, nothing is logged. Whatever state, whatever armed hooks, whatever else the line says. (seeded/C11-w6m1
+empties the table shared by all handles here.) -/
+theorem readiness_failure_changes_nothing (s : State) (hooks : List (Nat × (Nat × Step))) (c : String)
+    (rest : List String) (r : Res) (hs : s.svcGone = false) (hr : readiness (parseKv rest) = some r) :
+    machine.step (s, hooks) ("arrive" :: c :: rest) = ((s, hooks), [Ev.result (c.toNat?.getD 0) r]) := by
+  rw [step_refusal s hooks c rest r hr, hs]; rfl
+
+/-- … in particular **the in-flight table is unchanged** (whether or not a service handle is left): every key
+registered by a leader — a call that was led through ANOTHER handle — is still registered by that leader, so (by
+`waiter_no_inner_at_arrival`) the next request for the key joins it instead of starting a second inner call, its
+channel is still open, so (by `no_answer_while_pending_or_dropped`) its waiters keep waiting, and every free key is
+still free. -/
+theorem readiness_failure_leaves_table (s : State) (hooks : List (Nat × (Nat × Step))) (c : String)
+    (rest : List String) (r : Res) (hr : readiness (parseKv rest) = some r) :
+    let s' := (machine.step (s, hooks) ("arrive" :: c :: rest)).1.1
+    s'.inflight = s.inflight ∧ (∀ key, reg s' key = reg s key) ∧ s'.chan = s.chan ∧ s'.gone = s.gone ∧ s'.log = s.log := by
+  rw [step_refusal s hooks c rest r hr]
+  exact ⟨rfl, fun _ => rfl, rfl, rfl, rfl⟩
+
+/-- **Readiness failures are invisible to everybody else.** A history (any lines, from any state; `afterLines`: the
+state of the model's machine after them) ends in exactly the state of the same history with the arrivals through
+handles that did not become ready (`refusedLine`) deleted: every later answer to every other request — who leads, who
+joins, what each waiter receives and when — is what it would have been had those handles never been polled. -/
+theorem refused_arrivals_invisible (ls : List (List String)) (σ : machine.σ) :
+    afterLines σ ls = afterLines σ (ls.filter fun ws => !refusedLine ws) :=
+  afterLines_filter ls σ
+
 /-! ## every request is answered at most once; a call that delivered was not cancelled -/
 
 /-- **At most one answer per request.** In every reachable log the number of `result c …` events of a caller is
@@ -836,5 +870,16 @@ example :
           .drop 1, .poll 3, .poll 2, .poll 4]).log.map CEv.toEv
       = [.innerCall 1 0, .innerCall 2 1, .innerDrop 1 0, .result 3 .cancelled,
          .innerDone 2 1 (.err 3), .result 2 (.inner 3 1), .result 4 (.inner 3 1)] := by decide
+
+/-- key 7 is in flight, led by caller 1 (through one handle), caller 2 waits for it; the handle caller 3 is about to
+call fails its readiness check (`rdy=pe`): by `readiness_failure_changes_nothing` caller 3 gets the readiness error
+and the state stays this one, in which key 7 is registered by caller 1, caller 2 is pending at its next poll, and
+caller 4 joins the call in flight (no second inner call) -/
+example :
+    let s := run [.arrive 1 (svcKey 0 7) ⟨10, .ok⟩ false, .arrive 2 (svcKey 0 7) ⟨0, .ok⟩ false, .poll 2]
+    readiness [("key", "7"), ("rdy", "pe")] = some (.inner 9 0) ∧ readiness [("rdy", "pp")] = some .notReady ∧
+    readiness [("rdy", "ppr")] = none ∧ readiness [("key", "7")] = none ∧
+    s.svcGone = false ∧ reg s (svcKey 0 7) = some 1 ∧ (stepS s (.poll 2)).log = s.log ∧
+    (stepS s (.arrive 4 (svcKey 0 7) ⟨0, .ok⟩ false)).log = s.log := by decide
 
 end TR.Props.C11
